@@ -28,6 +28,11 @@ def run(ctx):
     l1, l2 = laws1(ctx), laws2(ctx)
     ctx.harness("roll2", binp, ["replay-roll2", "--in", r2["emitted"]] + extra + l2)
     ctx.harness("trend", binp, ["replay-roll1", "--kernels", TREND, "--in", r1["emitted"]] + extra + l1)
+    # long windows (215 .. 260, thorough .. 400) on arithmetic progressions: closed forms of every definition
+    # (LineLawOK checks closed form = definition within a bound), emitted as ordinary roll1 cases
+    ctx.tlc("line-law", "MCLongLine", "MCLongLine_law.cfg", workers=4, timeout=900, emit=False)
+    rl = ctx.tlc("long-line", "MCLongLine", "MCLongLine_quick.cfg" if q else "MCLongLine_thorough.cfg", workers=4, timeout=900)
+    ctx.harness("long-line", binp, ["replay-roll1", "--kernels", TREND, "--in", rl["emitted"]] + extra + l1)
     # random deep pair histories (length 9, windows to 7): long enough for the running sums to carry rounding
     # residue in non-dyadic units (this is what exposed the single-pair ts_vcorr defect)
     r3 = ctx.tlc("roll2-sim", "MCRoll2", "MCRoll2_sim.cfg", sim=(40 if q else 3000, 9), workers=12, timeout=3000)
